@@ -126,12 +126,9 @@ Fixpoint process_x (c : config) (tmpl ls : list limiter) (cur : list arg) (pendi
          (args : list arg) (input_err : bool) (st : xs) : N * list (list arg) :=
   match args with
   | [] =>
-      if input_err then
-        (* the arguments read before the input went wrong are not lost: their command is run, then the error is reported *)
-        (if pending then match exec c st cur with
-                         | inl st' => (1, log st')
-                         | inr stop => stop end
-         else (1, log st))
+      (* the reader failed: the error is reported at once; the arguments of the batch being collected are not run
+         (the repository's xargs_unterminated_quote pins exactly that: nothing on stdout) *)
+      if input_err then (1, log st)
       else if negb (c_r c) || pending then
         match exec c st cur with
         | inl st' => (status_ok (res st'), log st')
@@ -166,10 +163,16 @@ Fixpoint process_x (c : config) (tmpl ls : list limiter) (cur : list arg) (pendi
       end
   end.
 
+(* what the template limiters are charged with: the command and the initial arguments as written - with -I, as they are once an
+   empty line is put in (without the replacement string) *)
+Definition charged (c : config) : list N := if c_replace c then c_subst c 0 else c_init c.
+
 (* do_xargs + xargs_main: exit status and the batches of appended arguments, in order *)
 Definition xargs_run (c : config) (args : list arg) (input_err : bool) (outcomes : list child)
   : N * list (list arg) :=
-  match charge_init (limiters0 c) (c_init c) with
+  (* with -I the initial arguments are charged without the replacement string (the lengths once an empty line is put in): they are
+     not run as written, and the command line is held against the limits again when a line has been put in (fits_system) *)
+  match charge_init (limiters0 c) (charged c) with
   | None => (1, [])
   | Some tmpl => process_x c tmpl tmpl [] false args input_err {| res := Success; outs := outcomes; log := [] |}
   end.
